@@ -384,32 +384,36 @@ structure Loaded where
   entries : List (List Nat)
 deriving Repr, Inhabited
 
+/-- the widest kind over the blocks that hold data of a signal (`States::Nine` when there is none) -/
+def joinAll : List States → States
+  | [] => States.nine
+  | s :: ss => ss.foldl States.join s
+
+/-- one block of `Reader::load_signal`: decode the block's payload for the signal into the accumulator -/
+def loadStep (tpe : SigType) (maxS : States) (acc : Option Acc) (b : Nat × List Nat × States × Option Nat) : Option Acc :=
+  match acc with
+  | none => none
+  | some a =>
+    -- decompress = id; the rounded length only has to be large enough
+    match b.2.2.2 with
+    | some n => if n < b.2.1.length then none else
+      (match tpe with
+       | .string => loadStrings (b.2.1.length + 1) b.2.1 b.1 a
+       | .real => loadReals (b.2.1.length + 1) b.2.1 b.1 a
+       | .bitvec bits => loadFixed bits maxS (b.2.1.length + 1) b.2.1 b.1 a)
+    | none =>
+      (match tpe with
+       | .string => loadStrings (b.2.1.length + 1) b.2.1 b.1 a
+       | .real => loadReals (b.2.1.length + 1) b.2.1 b.1 a
+       | .bitvec bits => loadFixed bits maxS (b.2.1.length + 1) b.2.1 b.1 a)
+
 /-- `Reader::load_signal` -/
 def loadSignal (r : Reader) (id : Nat) (tpe : SigType) : Option Loaded :=
   match collectMeta r id with
   | none => none
   | some blocks =>
-    let maxS := match blocks.map (fun b => b.2.2.1) with
-      | [] => States.nine
-      | s :: ss => ss.foldl States.join s
-    let step := fun (acc : Option Acc) (b : Nat × List Nat × States × Option Nat) =>
-      match acc with
-      | none => none
-      | some a =>
-        let (off, payload, _, comp) := b
-        -- decompress = id; the rounded length only has to be large enough
-        match comp with
-        | some n => if n < payload.length then none else
-          (match tpe with
-           | .string => loadStrings (payload.length + 1) payload off a
-           | .real => loadReals (payload.length + 1) payload off a
-           | .bitvec bits => loadFixed bits maxS (payload.length + 1) payload off a)
-        | none =>
-          (match tpe with
-           | .string => loadStrings (payload.length + 1) payload off a
-           | .real => loadReals (payload.length + 1) payload off a
-           | .bitvec bits => loadFixed bits maxS (payload.length + 1) payload off a)
-    match blocks.foldl step (some {}) with
+    let maxS := joinAll (blocks.map (fun b => b.2.2.1))
+    match blocks.foldl (loadStep tpe maxS) (some {}) with
     | none => none
     | some a => some { maxStates := maxS, times := a.timesRev.reverse, entries := a.entriesRev.reverse }
 
